@@ -317,3 +317,62 @@ def ctor_wiring(s, rule, cls, necessary_for="", skip=()):
             s.ob(rule, f"{cls}.__init__.{name}", ok, f"attribute `{name}` is set from the constructor argument `{name}` and from no other argument", loc, key=f"ctor-{name}",
                  detail=show(v, maxlen=140), necessary_for=necessary_for)
     return n
+
+
+def _self_assigned(prog, ci, fn, seen=(), depth=0):
+    """Names X with `self.X = ...` somewhere in fn, following self.<helper>(...) calls and super().__init__ (may-assign: any path)."""
+    out = set()
+    for n in ast.walk(fn):
+        tg = []
+        if isinstance(n, ast.Assign):
+            tg = n.targets
+        elif isinstance(n, (ast.AnnAssign, ast.AugAssign)):
+            tg = [n.target]
+        for t in tg:
+            for e in (t.elts if isinstance(t, (ast.Tuple, ast.List)) else [t]):
+                if isinstance(e, ast.Attribute) and isinstance(e.value, ast.Name) and e.value.id == "self":
+                    out.add(e.attr)
+        if isinstance(n, ast.Call) and isinstance(n.func, ast.Attribute) and depth < 3:
+            f = n.func
+            if isinstance(f.value, ast.Name) and f.value.id == "self":
+                r = prog.resolve_method(ci, f.attr)
+                if r:
+                    out |= _self_assigned(prog, ci, r[1], seen, depth + 1)
+            if isinstance(f.value, ast.Call) and isinstance(f.value.func, ast.Name) and f.value.func.id == "super" and f.attr == "__init__":
+                for k in prog.mro(ci):
+                    if "__init__" in k.methods and k.methods["__init__"] is not fn and k.methods["__init__"] not in seen:
+                        out |= _self_assigned(prog, ci, k.methods["__init__"], tuple(seen) + (fn,), depth + 1)
+                        break
+    return out
+
+
+def fields_initialised(s, rule, classes, necessary_for=""):
+    """Every dataclass field (over the MRO) that has no default is assigned by the class's custom __init__ (Equinox raises
+    "Field ... was not initialized" otherwise: the class cannot be instantiated). ClassVar declarations are not fields."""
+    P = s.prog
+    n = 0
+    for ci in classes:
+        if not P.is_module_class(ci):
+            continue
+        av, am = P.abstract_members(ci)
+        if av or am:
+            continue
+        r = P.resolve_method(ci, "__init__")
+        if r is None:
+            continue
+        need = set()
+        for f in P.dataclass_fields(ci):
+            ann = ast.unparse(f.annotation) if f.annotation is not None and not isinstance(f.annotation, ast.Constant) else str(getattr(f.annotation, "value", ""))
+            has_default = f.default is not None
+            if isinstance(f.default, ast.Call) and ast.unparse(f.default.func).split(".")[-1] == "field":
+                # eqx.field(static=True) / dataclasses.field(...) only carries a default when it says so
+                has_default = any(k.arg in ("default", "default_factory") for k in f.default.keywords)
+            if "ClassVar" in ann or has_default:
+                continue
+            need.add(f.name)
+        got = _self_assigned(P, ci, r[1])
+        miss = sorted(need - got)
+        n += 1
+        s.ob(rule, f"{ci.name}.__init__", not miss, "the constructor assigns every field that has no default (the class can be instantiated)", P.loc(r[0].module, r[1]),
+             key="field-not-initialised", detail="never assigned: " + ", ".join(miss) if miss else f"{len(need)} fields", necessary_for=necessary_for)
+    return n
